@@ -404,18 +404,30 @@ pub(crate) fn burn_tag(input: &[u8], inposp: &mut usize) -> Result<(), Error> {
     Ok(())
 }
 
+// Unused values are skipped recursively; nesting deeper than this is refused, so that
+// hostile input cannot exhaust the stack
+const MAX_BURN_DEPTH: usize = 128;
+
 // from the character after the start quote of the key
 // ending on the character following the value
 pub(crate) fn burn_key_and_value(input: &[u8], inposp: &mut usize) -> Result<(), Error> {
+    burn_key_and_value_at(input, inposp, 0)
+}
+
+fn burn_key_and_value_at(input: &[u8], inposp: &mut usize, depth: usize) -> Result<(), Error> {
     burn_string(input, inposp)?;
     eat_colon_with_whitespace(input, inposp)?;
-    burn_value(input, inposp)?;
+    burn_value_at(input, inposp, depth)?;
     Ok(())
 }
 
 // from the character after the open brace
 // ending on the character following the close brace
 pub(crate) fn burn_object(input: &[u8], inposp: &mut usize) -> Result<(), Error> {
+    burn_object_at(input, inposp, 0)
+}
+
+fn burn_object_at(input: &[u8], inposp: &mut usize, depth: usize) -> Result<(), Error> {
     loop {
         eat_whitespace_and_commas(input, inposp);
 
@@ -426,13 +438,17 @@ pub(crate) fn burn_object(input: &[u8], inposp: &mut usize) -> Result<(), Error>
         }
 
         verify_char(input, b'"', inposp)?;
-        burn_key_and_value(input, inposp)?;
+        burn_key_and_value_at(input, inposp, depth)?;
     }
 }
 
 // from the character after the open bracket
 // ending on the character following the close bracket
 pub(crate) fn burn_array(input: &[u8], inposp: &mut usize) -> Result<(), Error> {
+    burn_array_at(input, inposp, 0)
+}
+
+fn burn_array_at(input: &[u8], inposp: &mut usize, depth: usize) -> Result<(), Error> {
     loop {
         eat_whitespace_and_commas(input, inposp);
 
@@ -442,13 +458,20 @@ pub(crate) fn burn_array(input: &[u8], inposp: &mut usize) -> Result<(), Error> 
             return Ok(());
         }
 
-        burn_value(input, inposp)?;
+        burn_value_at(input, inposp, depth)?;
     }
 }
 
 pub(crate) fn burn_value(input: &[u8], inposp: &mut usize) -> Result<(), Error> {
+    burn_value_at(input, inposp, 0)
+}
+
+fn burn_value_at(input: &[u8], inposp: &mut usize, depth: usize) -> Result<(), Error> {
     if *inposp >= input.len() {
         return Err(InnerError::JsonBad("Too short burning an unused JSON value", *inposp).into());
+    }
+    if depth > MAX_BURN_DEPTH {
+        return Err(InnerError::JsonBad("Unused JSON value nested too deeply", *inposp).into());
     }
     match input[*inposp] {
         b'"' => {
@@ -457,11 +480,11 @@ pub(crate) fn burn_value(input: &[u8], inposp: &mut usize) -> Result<(), Error> 
         }
         b'[' => {
             *inposp += 1;
-            burn_array(input, inposp)?
+            burn_array_at(input, inposp, depth + 1)?
         }
         b'{' => {
             *inposp += 1;
-            burn_object(input, inposp)?
+            burn_object_at(input, inposp, depth + 1)?
         }
         b't' => burn_true(input, inposp)?,
         b'f' => burn_false(input, inposp)?,
